@@ -108,7 +108,7 @@ def random_walk(rng, exprs, n_cmds, commands):
             ops += OBS
             continue
         elif x < 0.84:
-            ops.append({"op": "set_nav_node", "id": "${ID:%d}" % rng.randrange(50), "offset": 0})
+            ops.append({"op": "set_nav_node", "id": "${ID:%d}" % rng.randrange(50), "offset": rng.choice([0, 0, 0, 1, 2])})
             ops += OBS
             continue
         elif x < 0.85:
